@@ -739,7 +739,7 @@ func (e *SpecEnv) findSpecFunc(name string) *specFuncRef {
 }
 
 func (e *SpecEnv) applySpecFunc(sf *SpecFunc, pkg *Pkg, args []SExpr) Value {
-	if sf.Opaque && pkg != e.vc.pkg && !e.vc.revealAll {
+	if sf.Opaque && ((pkg != e.vc.pkg && !e.vc.revealAll) || e.vc.conceal[sf.Name]) {
 		return e.applyOpaque(sf, pkg, args)
 	}
 	return e.expandSpecFunc(sf, pkg, args)
